@@ -332,3 +332,18 @@ mod tests {
         assert!(matches!(fen.parse::<Board>(), Err(FenParseError::InvalidEnPassant)));
     }
 }
+
+#[cfg(cozy_chess_verif)]
+impl Board {
+    /// Verification hook: run one of the FEN field parsers.
+    pub fn verif_parse_field(board: &mut Board, which: u8, s: &str, shredder: bool) -> Result<(), ()> {
+        match which {
+            0 => Self::parse_board(board, s),
+            1 => Self::parse_side_to_move(board, s),
+            2 => Self::parse_castle_rights(board, s, shredder),
+            3 => Self::parse_en_passant(board, s),
+            4 => Self::parse_halfmove_clock(board, s),
+            _ => Self::parse_fullmove_number(board, s)
+        }
+    }
+}
